@@ -4,7 +4,7 @@
    reader); every table, buffer size and `m_bufferRemaining < k` guard comes from GenSer.v, which
    translator/gen_ser.py regenerates from /repo on every run. *)
 From Coq Require Import NArith List Bool.
-Require Import XV.SerDefs XV.XmlParseDefs XV.SerUtfModel XV.SerUtfModel2 XV.SerEscModel.
+Require Import XV.SerDefs XV.XmlParseDefs XV.SerUtfModel XV.SerUtfModel2 XV.SerEscModel XV.SerEscModel2.
 Import ListNotations.
 Local Open Scope N_scope.
 
@@ -230,7 +230,7 @@ Proof. exact SerEscModel.comment_unrepresentable_fails. Qed.
 Print Assumptions comment_unrepresentable_fails.
 
 Theorem comment_verbatim : forall v11 s, wf_text v11 s = true ->
-  (forall c, In c s -> p_crforbidden v11 c = false) ->
+  (forall c, In c s -> p_comment_error v11 c = false) ->
   payload (write_comment fam_utf16 v11 s) = Ok ([60; 33; 45; 45] ++ s ++ [45; 45; 62]).
 Proof. exact SerEscModel.comment_verbatim. Qed.
 Print Assumptions comment_verbatim.
@@ -240,3 +240,26 @@ Theorem comment_never_writes_a_reference : forall rep v11 s bs, (forall c, c < 1
   bs = [60; 33; 45; 45] ++ s ++ [45; 45; 62].
 Proof. exact SerEscModel.comment_never_writes_a_reference. Qed.
 Print Assumptions comment_never_writes_a_reference.
+
+(* for every writer family: when a comment or a PI is serialized successfully, its data contains no
+   character that survives parsing only as a character reference (p_comment_error: the XML 1.1
+   control characters, and - when GenSer.comment_eol_is_error, i.e. with fixes/C04/06 - CR and under
+   1.1 NEL and LSEP, which a parser would turn into LF) *)
+Theorem comment_ok_has_no_reference_only_char : forall F v11 s bs,
+  payload (write_comment F v11 s) = Ok bs -> forall c, In c s -> p_comment_error v11 c = false.
+Proof. exact SerEscModel2.comment_ok_has_no_reference_only_char. Qed.
+Print Assumptions comment_ok_has_no_reference_only_char.
+
+Theorem pi_ok_has_no_reference_only_char : forall F v11 t d bs,
+  payload (write_pi F v11 t d) = Ok bs -> forall c, In c d -> p_comment_error v11 c = false.
+Proof. exact SerEscModel2.pi_ok_has_no_reference_only_char. Qed.
+Print Assumptions pi_ok_has_no_reference_only_char.
+
+(* the variant the source currently has: CR in a comment is an error, or (finding K-new-1) is written
+   literally and read back as LF *)
+Example comment_cr_in_this_variant :
+  if comment_eol_is_error
+  then p_comment_error false 13 = true /\ payload (write_comment fam_utf16 false [120; 13]) = Thrown err_forbidden
+  else payload (write_comment fam_utf16 false [120; 13]) = Ok [60; 33; 45; 45; 120; 13; 45; 45; 62].
+Proof. vm_compute. repeat split; reflexivity. Qed.
+Print Assumptions comment_cr_in_this_variant.
